@@ -62,7 +62,7 @@ impl PacketHeader {
     pub fn to_writer<W: io::Write>(&self, writer: &mut W) -> (r: errors::Result<()>)
         requires hdr_ok(self.hv())
         ensures
-            r is Ok ==> final(writer).out() == old(writer).out() + enc_hdr(self.hv()),
+            r is Ok ==> (*final(writer)).out() == old(writer).out() + enc_hdr(self.hv()),
             sink_infallible::<W>() ==> r is Ok,
     { unimplemented!() }
 }
@@ -73,7 +73,7 @@ impl PacketLength {
     pub fn to_writer_new<W: io::Write>(&self, writer: &mut W) -> (r: errors::Result<()>)
         requires new_len_ok(*self)
         ensures
-            r is Ok ==> final(writer).out() == old(writer).out() + enc_len(*self),
+            r is Ok ==> (*final(writer)).out() == old(writer).out() + enc_len(*self),
             sink_infallible::<W>() ==> r is Ok,
     { unimplemented!() }
 }
